@@ -331,7 +331,15 @@ func PlanBulkUpdate(backend Database, strat UpdateStrategy) (ChangeList, error) 
 				return nil, fmt.Errorf("db: can't fetch build artifact for '%v': %v", currentEntity, err)
 			}
 
-			if build.Certificate != nil {
+			//an artifact that is there gets overwritten, also when no certificate could be
+			//read from it (another label, a byte order mark, a certificate that does not parse):
+			//it counts as a replacement, so that the user is asked first
+			meta, err := backend.GetMetadata(currentEntity)
+			if err != nil {
+				return nil, fmt.Errorf("db: can't fetch metadata for '%v': %v", currentEntity, err)
+			}
+
+			if build.Certificate != nil || (meta != nil && !meta.LastBuild.IsZero()) {
 				logging.Infof("Entity '%v' will be overwritten", currentEntity)
 				changeTmp.Change = ChangeReplace
 			} else {
